@@ -350,7 +350,11 @@ def given_exception_matches(err, exc) -> bool:
         return False
     if not isclass(err):
         err = type(err)
-    return issubclass(err, exc)
+    if isinstance(exc, tuple):
+        return any(given_exception_matches(err, element) for element in exc)
+    # Like CPython, we inspect the MRO of the raised exception.  ``issubclass`` would
+    # also consult ``__subclasscheck__``, e.g., of ABCs, which ``except`` ignores.
+    return isclass(exc) and exc in err.__mro__
 
 
 def string_distance(string1: str, string2: str) -> float:
